@@ -157,6 +157,7 @@ def plan(tier, seed):
     return {
         'obligations': obs,
         'level': 'other',
+        'programs': 20,
         'explanation': 'A: the @int/@uint/@float/@bool/@name character matchers run symbolically on texts of n symbolic code points at every offset: no '
                        'exception, the cursor moves only on success, and the returned value is the conversion of exactly the consumed slice. '
                        + c08b.EXPLANATION,
